@@ -148,6 +148,22 @@ CLAIMS['C11'] = dict(
     note='Trusted: slice::binary_search_by_key, RangeMap::get, rustc MIR.',
     ref='DESIGN.md §3 C11')
 
+CLAIMS['C02'] = dict(
+    technique='endianness provenance dataflow on every scroll read, LE/BE twin comparison of byte-order branches, derive pairing from the impl table, insert discipline of the directory loop',
+    text='Narrow claim: only the byte-order and layout-pairing clauses. Every scroll read that takes an Endian context (329 call sites in minidump and minidump-common) receives an endianness data-flow-derived from a parameter or field, '
+         'and Endian constants occur only in the signature probe of Minidump::read; every branch on the byte order has a Little and a Big arm that are LE/BE twins; every format.rs type read through scroll derives Pread and SizeWith from one field list '
+         '(the five hand-written readers are a reviewed list); duplicate directory entries are stored by an unconditional insert in file order, so the last one is served. Field offsets/padding against the serializer, identifier derivation and memory contents relate values to values and are NOT decided.',
+    note='Trusted: scroll and its derives, rustc MIR and impl table.',
+    ref='DESIGN.md §3 C02')
+CLAIMS['C15'] = dict(
+    technique='document/code key-tree agreement (JSON key tree reconstructed from the MIR of json! expansions vs the pseudo-JSON of json-schema.md), value provenance, dominance',
+    text='Narrow claim: structure, not values. The tree of object keys print_json can emit (reconstructed from the MIR of every json! expansion, map["k"] = .. and insert mutation, and serde-derived struct reachable from it) equals the key tree of json-schema.md in both directions '
+         '(one reviewed documentation gap: proc_limits); every key documented <hexstring> is built by json_hex, an Address (serialised through its Display impl) or a hex format; every documented enumeration value can be produced; '
+         'set_print_context() dominates all formatting; thread_count / frame_count / frame / module_offset / function_offset / the crashing_thread copy / modules are computed from the data they duplicate; bytes reach the writer only through serde_json. '
+         'Validity and escaping are serde_json\'s; schema conformance of values for hostile states is not decided.',
+    note='Trusted: serde_json (valid UTF-8 JSON, escaping, BTreeMap-backed Map), the json! macro expansion shape as seen in MIR, rustc.',
+    ref='DESIGN.md §3 C15')
+
 NOT_YET = {}
 NA = {
     'C14': 'every clause relates values of the result to values of the dump (which thread, which context, which address after masking); no clause has a structural form that would not also fire on behaviour-preserving rewrites, so static analysis does not apply; its panic-freedom is covered under C03',
